@@ -146,7 +146,8 @@ func genC02(t *rapid.T) C02Case {
 		tl.IsError = rapid.IntRange(0, 4).Draw(t, "iserror") == 0
 		if rapid.IntRange(0, 2).Draw(t, "structured") == 0 {
 			tree := genJSONTree(t, 0)
-			if _, isMap := tree.(map[string]interface{}); !isMap {
+			if _, isMap := tree.(map[string]interface{}); !isMap && (tree == nil || rapid.IntRange(0, 1).Draw(t, "wrap") == 0) {
+				// (the field is an interface{}: typed handlers put slices, strings and numbers there as well)
 				tree = map[string]interface{}{"v": tree}
 			}
 			tl.Structured, _ = json.Marshal(tree)
